@@ -10,6 +10,7 @@ import PlatypusModel.Model.Grid
 import PlatypusModel.Model.Run
 import PlatypusModel.Model.Survival
 import PlatypusModel.Model.SPEA2
+import PlatypusModel.Model.NSGA3
 import PlatypusModel.Model.Machine
 import PlatypusModel.Model.Parallel
 import PlatypusModel.Model.Indicators
@@ -257,6 +258,17 @@ def opsSurvival (op : String) : Option (P String) :=
       pure (match spea2Survival c dirs k merged n with
         | some ids => "v " ++ showNats ids
         | none => "err:index")
+  | "nsga3" => some do
+      -- NSGAIII._reference_point_truncate on a rank-annotated merged population
+      let c ← bool; let dirs ← list bool; let n ← nat
+      let ideal ← list flt; let refs ← list (list flt); let merged ← list solF
+      let tape ← list (do let a ← nat; let b ← nat; pure (a, b))
+      pure (match nsga3Truncate c dirs ideal refs merged n tape with
+        | none => "err:zerodiv"
+        | some (.error .tape) => "err:tape"
+        | some (.error .index) => "err:index"
+        | some (.error .fuel) => "err:fuel"
+        | some (.ok (ids, ideal', rest)) => s!"v {showNats ids} | {showList showFlt ideal'} | {rest.length}")
   | "gde3" => some do
       let c ← bool; let dirs ← list bool; let n ← nat; let off ← list solF; let pop ← list solF
       pure ("v " ++ showNats (gde3Survival c dirs off pop n))
